@@ -429,7 +429,7 @@ REAL_FILES = [
 ]
 
 
-def real_dictionaries(repo):
+def real_dictionaries(repo, matrices=False):
     """the nas2cam dictionaries of pyYeti's own test data (read with op2.rdnas2cam)"""
     import os
     import warnings
@@ -446,5 +446,6 @@ def real_dictionaries(repo):
                 nas = op2.rdnas2cam(path)
             except Exception:  # noqa: BLE001 - reading op2 files is another property's subject
                 continue
-        out.append((f, {k: nas[k] for k in ("selist", "uset", "dnids", "maps", "upids")}))
+        keys = ("selist", "uset", "dnids", "maps", "upids") + (("got", "goq", "gm", "pha", "phg", "ulvs") if matrices else ())
+        out.append((f, {k: nas[k] for k in keys if k in nas}))
     return out
